@@ -141,5 +141,5 @@ MANIFEST = dict(
          "TLC checks the loop for every interleaving of letters, and every letter x gun kind x postprocessor set is "
          "provoked on the real engine, so a panic or a lost/extra sample in any path shows as a rejected run.",
     note="2 instances x 30 ammo per run; byte-level fuzz of responses is not attempted (letters are representatives); "
-         "gRPC status table not re-derived; connect gun not covered",
+         "gRPC status table not re-derived; stalled bodies / 101 outside the alphabet",
 )
